@@ -54,6 +54,11 @@ type propCfg struct {
 
 var root = "/verif"
 
+// repoRoot is the tree the checks are built against: /repo, or a scratch copy named by
+// VERIF_REPO (used to try changes without touching /repo; the module replacement is then
+// redirected with -modfile).
+var repoRoot = "/repo"
+
 // tmpDirs are removed on every way out, including fatal2.
 var tmpDirs []string
 
@@ -91,6 +96,9 @@ func goEnv() []string {
 func main() {
 	if r := os.Getenv("VERIF_ROOT"); r != "" {
 		root = r
+	}
+	if r := os.Getenv("VERIF_REPO"); r != "" {
+		repoRoot = r
 	}
 	if len(os.Args) < 2 {
 		fmt.Fprintln(os.Stderr, "usage: verif check <ID> <quick|thorough> | verif replay <file> | verif determinism <ID> [seeds]")
@@ -175,6 +183,22 @@ func build(tmp string, cfg *propCfg) string {
 			fatal2("overlay generation failed (instrumenting /repo/v2/drivers/midicatdrv): %v", err)
 		}
 		args = append(args, "-overlay", ov)
+	}
+	if repoRoot != "/repo" {
+		// same module file, other replacement target
+		mod, err := os.ReadFile(filepath.Join(root, "sim", "go.mod"))
+		if err != nil {
+			fatal2("%v", err)
+		}
+		alt := strings.Replace(string(mod), "=> /repo/v2", "=> "+repoRoot+"/v2", 1)
+		modfile := filepath.Join(tmp, "alt.mod")
+		if err := os.WriteFile(modfile, []byte(alt), 0o644); err != nil {
+			fatal2("%v", err)
+		}
+		if sum, err := os.ReadFile(filepath.Join(root, "sim", "go.sum")); err == nil {
+			os.WriteFile(filepath.Join(tmp, "alt.sum"), sum, 0o644)
+		}
+		args = append(args, "-modfile", modfile)
 	}
 	args = append(args, "./"+cfg.Pkg)
 	cmd := exec.Command(goBin(), args...)
@@ -559,12 +583,12 @@ func mergeStats(dst, src *core.Stats) {
 }
 
 func repoRev() string {
-	out, err := exec.Command("git", "-C", "/repo", "rev-parse", "--short", "HEAD").Output()
+	out, err := exec.Command("git", "-C", repoRoot, "rev-parse", "--short", "HEAD").Output()
 	if err != nil {
 		return "unknown"
 	}
 	rev := strings.TrimSpace(string(out))
-	st, _ := exec.Command("git", "-C", "/repo", "status", "--porcelain").Output()
+	st, _ := exec.Command("git", "-C", repoRoot, "status", "--porcelain").Output()
 	if len(strings.TrimSpace(string(st))) > 0 {
 		rev += "+dirty"
 	}
